@@ -26,14 +26,14 @@ def mc_configs(ctx):
     return [("open-close", nu.mc_consts(mo=1, mcl=1)),
             ("cut-reconnect", nu.mc_consts(mo=1, mcl=0, cut=1, rec=1, sub=4)),
             ("open-fail-autoXY", nu.mc_consts(auto=("X", "Y"), mo=1, mcl=0, fail=1)),
-            ("autoX-cut", nu.mc_consts(auto=("X",), mo=1, mcl=0, cut=1)),
-            ("stall-timeout", nu.mc_consts(mo=1, mcl=0, stall=1))]
+            ("autoXY-cut", nu.mc_consts(auto=("X", "Y"), mo=1, mcl=0, cut=1)),
+            ("autoX-openfail", nu.mc_consts(auto=("X",), mo=1, mcl=0, fail=1))]
 
 
 def model_check(ctx):
     out = []
     for name, consts in mc_configs(ctx):
-        r = tlc_mc(ctx, "NotifMC.tla", write_cfg(ctx, "mc_%s.cfg" % name, consts, nu.MC_LINES), workers=6, timeout=3000)
+        r = tlc_mc(ctx, "NotifMC.tla", write_cfg(ctx, "mc_%s.cfg" % name, consts, nu.MC_LINES), workers=6 if ctx.quick() else 10, timeout=3000)
         if not r["ok"]:
             raise ToolError("NotifMC violates an invariant outside the tagged design findings in config %s; the model must be "
                             "corrected or the counterexample replayed against real nodes:\n%s" % (name, r.get("error", r["out"][-3000:])))
@@ -43,12 +43,17 @@ def model_check(ctx):
     return out
 
 
-def model_tags(ctx):
-    """which tagged design findings are reachable in the model (negative run: no tag known)"""
-    consts = nu.mc_consts(mo=1, mcl=1, tags=())
-    r = tlc_mc(ctx, "NotifMC.tla", write_cfg(ctx, "mc_tags.cfg", consts, ["SPECIFICATION Spec", "INVARIANTS NoUnknownPanic", "CHECK_DEADLOCK FALSE"]),
-               workers=6, timeout=1200, expect_violation=True)
-    return not r["ok"]
+def model_negative(ctx):
+    """negative model configurations: (name, invariant expected to break, constants)"""
+    res = []
+    for name, inv, consts in [("no-known-tags", "NoUnknownPanic", nu.mc_consts(mo=1, mcl=1, tags=())),
+                              ("silent-negotiation-error", "QuiesceOK", nu.mc_consts(mo=1, mcl=0, mut="silent_negotiation_error")),
+                              ("silent-task-end", "QuiesceOK", nu.mc_consts(auto=("X", "Y"), mo=1, mcl=0, cut=1, mut="silent_task_end"))]:
+        r = tlc_mc(ctx, "NotifMC.tla", write_cfg(ctx, "neg_%s.cfg" % name, consts, ["SPECIFICATION Spec", "INVARIANTS MonOK NoUnknownPanic QuiesceOK", "CHECK_DEADLOCK FALSE"]),
+                   workers=6, timeout=1200, expect_violation=True)
+        hit = (not r["ok"]) and ("Invariant %s is violated" % inv) in r["out"]
+        res.append((name, inv, hit))
+    return res
 
 
 def generate(ctx):
@@ -122,15 +127,26 @@ def classify(seg, idx, reason):
 
 def collect(ctx, rejects, prop="C11"):
     violations = []
+    # a panicked protocol loop stops serving every peer: silence observed by the other endpoints of that
+    # scenario is a consequence of the panic and is reported under the panic's signature
+    panicked = {}
+    for r in rejects:
+        if r.reason == "panic":
+            panicked[json.loads(r[0][0]).get("sc")] = classify(r[0], r[1], r.reason)
     for r in rejects:
         seg, idx = r
         sig = classify(seg, idx, r.reason)
         hdr = json.loads(seg[0])
+        if r.reason in ("open request never answered", "stream still open after the connection was lost") and hdr.get("sc") in panicked:
+            sig = panicked[hdr.get("sc")]
         violations.append({"sig": sig, "what": "%s at endpoint %s of scenario %s: %s" % (r.reason, hdr.get("ep"), hdr.get("sc"), seg[idx - 1][:300]),
                            "replay_obj": {"property": prop, "reason": r.reason, "signature": sig, "scenario": hdr.get("sc"),
                                           "script": getattr(ctx, "scripts_by_id", {}).get(hdr.get("sc")),
                                           "segment": [json.loads(x) for x in seg[:idx]]}})
     return violations
+
+
+save_known_repros = nu.save_known_repros
 
 
 def check(ctx):
@@ -152,6 +168,7 @@ def check(ctx):
         raise ToolError("harness trouble: %s" % summs)
     nseg, nev, rejects = validate_all(ctx, "NotifTrace.tla", "NotifTrace.cfg", lines)
     violations = collect(ctx, rejects)
+    save_known_repros(ctx, violations)
     nostream = sum(1 for ln in lines if '"r":"nostream"' in ln and '"m":"s"' in ln)
     if nostream:
         ctx.notes.append("drift: NotificationHandle::send_sync_notification for a peer without an open stream returned Ok(()) %d times "
@@ -269,14 +286,14 @@ def selftest(ctx):
     mutate("recv-after-closed", isev("closed"), lambda d: [d, {"e": "ev", "k": "recv", "p": d["p"]}], "notification received outside an open stream")
     mutate("panic-line", isev("validate"), lambda d: [d, {"e": "panic", "cls": "Proto", "msg": "x"}], "panic")
     # (b) the model finds its tagged design findings when no tag is declared known
-    found = model_tags(ctx)
-    log("selftest negative model config (no known tags) -> %s" % ("invariant violated OK" if found else "FAILED"))
-    ok &= found
+    for name, inv, hit in model_negative(ctx):
+        log("selftest negative model %-26s -> %s" % (name, ("%s violated OK" % inv) if hit else "FAILED"))
+        ok &= hit
     # (c) a fault injected in the harness (Closed events withheld from the log) must be caught
-    summ, l2 = nu.run_scripts(ctx, scripts, "fault", threads=8)
-    l2 = [ln for ln in l2 if '"k":"closed"' not in ln]
+    summ, l2 = nu.run_scripts_env(ctx, scripts, "fault", {"VERIF_FAULT": "drop_closed"}, threads=8)
     _, _, rj = validate_all(ctx, "NotifTrace.tla", "NotifTrace.cfg", l2, tag="f")
-    log("selftest harness fault (closed events withheld) -> %d rejects %s" % (len(rj), "OK" if rj else "FAILED"))
+    log("selftest harness fault VERIF_FAULT=drop_closed (Closed events withheld) -> %d rejects %s %s"
+        % (len(rj), sorted({r.reason for r in rj})[:3], "OK" if rj else "FAILED"))
     ok &= bool(rj)
     log("SELFTEST %s" % ("passed" if ok else "FAILED"))
     return 0 if ok else 2
